@@ -40,8 +40,9 @@ L1Step(pre, post) == NoNewReserved(pre, post) /\ \A i \in DOMAIN pre : L1Entry(p
 \*  [op |-> "create", how |-> "reserved_free"|"reserved_dup"|"anonymous"|"doesnotexist"|"dynmin"|"dynamic"|"absent"
 \*                         |"dup_user"|"dup_recycled"|"two_values"|"two_same"|"mixed_reserved"]
 \*  [op |-> "delete", target |-> "builtin"|"user"|"all"|"user_or_builtin"|"recycled"]
-ModKinds == {"present", "removed", "purged", "set", "assert", "swap", "purgeswap"}   \* swap = removed(same)+present(v); purgeswap = purged+present(v)
-ValsOf(kind) == IF kind = "purged" THEN {"none"} ELSE IF kind \in {"swap", "purgeswap"} THEN {"dyn", "reserved"} ELSE {"same", "dyn", "reserved"} \cup (IF kind = "present" THEN {"illtyped"} ELSE {})
+ModKinds == {"present", "removed", "purged", "set", "assert", "swap", "purgeswap", "setrename"}
+\* swap = removed(same)+present(v); purgeswap = purged+present(v); setrename = set(v) + a fresh unique name in the same request
+ValsOf(kind) == IF kind = "purged" THEN {"none"} ELSE IF kind \in {"swap", "purgeswap", "setrename"} THEN {"dyn", "reserved"} ELSE {"same", "dyn", "reserved"} \cup (IF kind = "present" THEN {"illtyped"} ELSE {})
 ModReqs == {[op |-> o, kind |-> k, attr |-> "uuid", target |-> t, val |-> v, pos |-> p] :
                o \in {"modify", "batch"}, k \in ModKinds, t \in {"user", "builtin"}, v \in {"same", "dyn", "reserved", "illtyped", "none"},
                p \in {"only", "first", "last"}}
